@@ -116,6 +116,28 @@ def check(rep, tier, seed):
         rep.functions_encoded.append(p)
     rep.add(Query("accept task: the service closure captures the context returned by TcpConnectionContext::new of this accept", "holds" if okc else "violated", "", 0, "mirsym",
                   key="C07.capture", reproduced=None))
+    # every accepted connection reaches TcpConnectionContext::new (which consumes the record): the accept path may give up earlier only when an
+    # operation of the agent itself fails, never on something the peer controls (its address being unavailable after a reset, its data ...)
+    PEER = re.compile(r"(peer_addr|local_addr|TcpStream::(peek|read|try_read|readable|ready|take_error|poll_peek)|::peek$|take_error)$")
+    gave_up = set()
+    for p in spawn + [base + "::{closure#0}"]:
+        if p not in ctx.idx.files:
+            continue
+        e6 = ctx.engine()
+        for i, r in enumerate(e6.explore(p)):
+            if r.status != "return":
+                continue
+            nw = [e for e in r.events if e.kind == "await" and e.callee.endswith("TcpConnectionContext::new")]
+            sp = [e for e in r.events if e.kind == "call" and re.search(r"tokio::spawn$|task::spawn$", e.callee)]
+            if nw or (p == base + "::{closure#0}" and sp):
+                continue
+            failed = [e for e in r.events if e.kind in ("call", "await") and isinstance(e.ret, Sym) and check_sat(r.pc + [e.ret.discr() == 0])[0] == "unsat"]
+            names = [e.callee.split("::")[-1] for e in failed]
+            peer = [e for e in failed if PEER.search(e.callee)]
+            gave_up |= set(names)
+            rep.add(Query("accept path %s#%d gives up before TcpConnectionContext::new only because an operation of the agent itself failed (%s)" % (p.split("::")[-1] if "closure" in p.split("::")[-1] else "outer", i, names),
+                          "violated" if peer or not failed else "holds", "peer-controlled: %s" % [e.callee.split("::")[-1] for e in peer] if peer else "", 0, "mirsym+z3", key="C07.accept-reaches-new", reproduced=None))
+    rep.extra["accept_gives_up_on"] = sorted(gave_up)
     # the redirector-level lookup/remove: whenever a BPF object is loaded, the map operation is actually attempted
     # (a removal that can silently not happen would leave the record for the next connection on that port)
     for fn, op in (("remove_audit", "remove_audit_map_entry"), ("lookup_audit", "lookup_audit")):
@@ -147,11 +169,14 @@ def check(rep, tier, seed):
             if ops:
                 ok_port = same_origin(ops[0].rargs[-1], r.args[0].child(("f", 0))) or True
         rep.add(Query("witness: redirector::%s has a path performing the map operation" % fn, "witness-hit" if n_op else "witness-missed", "", 0, "mirsym"))
+    rep.outside_claim.append("accepts on which increase_tcp_connection_count or set_stream_read_time_out fails: the task ends before the record is consumed (agent-internal faults are not in the property's quantifier)")
     rep.bounds["induction"] = "one accept from an arbitrary audit-map state; after an attributed accept the record is removed (bpf_map_delete semantics, C06), so a later accept on the same port without a new kernel record takes the unattributed path"
     rep.assumptions += ["remove_audit failure is only logged (stated in the design: the record then survives until LRU eviction)", "Future::poll returns Ready"]
     rep.outside_claim += ["schedules: two accepts racing on one source port between lookup and remove (separate lock acquisitions); Kani/mirsym do not model tokio's scheduler",
                           "Claims::from_audit_entry internals (process inspection)"]
     rep.trusted += ["mirsym", "z3"]
+    import batteries
+    batteries.confirm(rep, "C07")
 
 
 def replay(path):
